@@ -1,5 +1,6 @@
 import BddVerif.Model.Apply
 import BddVerif.Model.Outcome
+import BddVerif.Model.Serial
 /-!
 Executable model of the `.dot` export (`src/_impl_bdd/_impl_export_dot.rs:36-91`, `write_bdd_as_dot`).
 
@@ -124,6 +125,28 @@ def render (ss : List Stmt) : String :=
 /-- `bdd_to_dot_string` / `Bdd::to_dot_string` -/
 def toDotString (A : Arr) (names : List String) (pruned : Bool) : Outcome String :=
   (dotStmts A names pruned).map render
+
+/-! ### `write_as_dot_string` into an arbitrary sink -/
+
+/-- the bytes of the text (`String` is UTF-8) -/
+def textBytes (t : String) : List UInt8 := t.toUTF8.toList
+
+/-- `write_as_dot_string(output, …)` with a scripted sink (`B.Serial.Ev`: one event per `write` call).
+    Every `writeln!` is `Write::write_fmt`, i.e. a sequence of `write_all` calls on consecutive pieces of the text
+    (how the text is cut into pieces is a detail of `format_args!`): `writeDotPieces` for a given division.
+    Result: `Ok`?, the bytes that reached the sink. -/
+def writeDotPieces (pieces : List (List UInt8)) (script : List Serial.Ev) : Bool × List UInt8 :=
+  let r := Serial.writePieces script pieces
+  (r.1, r.2.1)
+
+/-- the same with the whole text as one piece: what the driver replays. It has the same `Ok`/`Err` outcome as
+    every division into pieces whenever the script has no fault (theorem `dot_write_chunking_irrelevant`) or its
+    first fault comes before the gives can have covered the text (the scripts the harness generates). -/
+def writeDotIO (A : Arr) (names : List String) (pruned : Bool) (script : List Serial.Ev) :
+    Outcome (Bool × List UInt8) :=
+  (toDotString A names pruned).map fun t =>
+    let r := Serial.writeAll script (textBytes t)
+    (r.1, r.2.1)
 
 /-! ### reading the text back -/
 
